@@ -450,19 +450,19 @@ def _mentions(n):
     return out
 
 
-def eval_seeded(n, ctx, seed):
+def eval_seeded(n, ctx, seed, forget=False):
     """Evaluate a pattern the way a fully top-down engine would: every solution found so far is handed into the evaluation of the next
     element and of everything nested in it. Where this gives the same multiset as eval_pattern (the algebra), pushing bindings down cannot
     matter for the query; where it differs, the query is inside the region of the listed push-down finding. Raises Latitude for shapes it
     does not cover."""
     t = n[0]
     if t in ("bgp", "values"): return join([seed], eval_pattern(n, ctx), ctx)
-    if t == "union": return eval_seeded(n[1], ctx, seed) + eval_seeded(n[2], ctx, seed)
+    if t == "union": return eval_seeded(n[1], ctx, seed, forget) + eval_seeded(n[2], ctx, seed, forget)
     if t == "subselect":
         spec = n[1]
         if set(spec) - {"where", "proj", "distinct", "star"} or any(not isinstance(p, str) for p in spec.get("proj") or []): raise Latitude("sub-select with modifiers")
         keep = set(select_vars(spec)) | set(seed)
-        sols = [{k: v for k, v in m.items() if k in keep} for m in eval_seeded(spec["where"], ctx, seed)]
+        sols = [{k: v for k, v in m.items() if k in keep} for m in eval_seeded(spec["where"], ctx, seed, forget)]
         if spec.get("distinct"):
             seen = set(); d = []
             for m in sols:
@@ -475,10 +475,10 @@ def eval_seeded(n, ctx, seed):
         if name[0] == "var" and name[1] in seed: name = ["c", enc(seed[name[1]])]
         if name[0] == "c":
             k = lkey(dec(name[1]))
-            return eval_seeded(n[2], ctx.with_active(named[k][1] if k in named else set()), seed)
+            return eval_seeded(n[2], ctx.with_active(named[k][1] if k in named else set()), seed, forget)
         out = []
         for k, (term, trip) in named.items():
-            for m in eval_seeded(n[2], ctx.with_active(trip), seed):
+            for m in eval_seeded(n[2], ctx.with_active(trip), seed, forget):
                 if name[1] in m:
                     if lkey(m[name[1]]) == k: out.append(m)
                 else:
@@ -492,22 +492,41 @@ def eval_seeded(n, ctx, seed):
             out = []
             if k == "optional":
                 inner = e[1]; conds = group_filters(inner[1]); body = ["group", [x for x in inner[1] if x[0] != "filter"]]
+                before = set()
+                for prev in n[1]:
+                    if prev is e: break
+                    before |= _mentions(prev)
                 for a in G:
-                    ok = [m for m in eval_seeded(body, ctx, a) if all(test(f, m, ctx) for f in conds)]
-                    out += ok or [a]
+                    if not forget:
+                        ok = [m for m in eval_seeded(body, ctx, a, forget) if all(test(f, m, ctx) for f in conds)]
+                        out += ok or [a]
+                        continue
+                    # the variant with the usual counter-measures of such an engine: the condition does not see what was pushed into this
+                    # group from outside, and an unmatched row is only kept if the OPTIONAL part would not match without the pushed bindings either
+                    hidden = set(seed)
+                    ok = [m for m in eval_seeded(body, ctx, a, forget) if all(test(f, {k_: v_ for k_, v_ in m.items() if k_ not in hidden}, ctx) for f in conds)]
+                    if ok: out += ok
+                    else:
+                        a0 = {k_: v_ for k_, v_ in a.items() if k_ in before}
+                        if not any(all(test(f, m, ctx) for f in conds) for m in eval_seeded(body, ctx, a0, forget)): out.append(a)
             elif k == "minus":
                 shared = _mentions(e[1])
                 for a in G:
-                    if not (eval_seeded(e[1], ctx, a) and (shared & set(a))): out.append(a)
+                    if not (eval_seeded(e[1], ctx, a, forget) and (shared & set(a))): out.append(a)
             elif k == "bind":
+                before = set()
+                for prev in n[1]:
+                    if prev is e: break
+                    before |= _mentions(prev)
                 for a in G:
                     if e[2] in a: out.append(a); continue
+                    view = a if not forget else {k_: v_ for k_, v_ in a.items() if k_ not in seed or k_ in before}
                     try:
-                        m = dict(a); m[e[2]] = ev(e[1], a, ctx); out.append(m)
+                        m = dict(a); m[e[2]] = ev(e[1], view, ctx); out.append(m)
                     except Err:
                         out.append(a)
             else:
-                for a in G: out += eval_seeded(e, ctx, a)
+                for a in G: out += eval_seeded(e, ctx, a, forget)
             G = out
             if len(G) > ctx.budget: raise Budget()
         for f in group_filters(n[1]):
